@@ -7,6 +7,7 @@
 package main
 
 import (
+	"crypto/rand"
 	"fmt"
 	"math"
 	"os"
@@ -69,10 +70,37 @@ func digitsOnly(n int) func(string) bool {
 	}
 }
 
+// forcedReader is a goroutine-safe source that makes the rare paths common: every other 4-byte read is FF FF FF FF
+// (rejected by every bound that is not a power of two), the others come from a fixed linear congruential sequence.
+type forcedReader struct {
+	mu    sync.Mutex
+	state uint64
+	n     uint64
+}
+
+func (f *forcedReader) Read(p []byte) (int, error) {
+	f.mu.Lock()
+	defer f.mu.Unlock()
+	for i := 0; i+4 <= len(p); i += 4 {
+		f.n++
+		if f.n%2 == 0 {
+			p[i], p[i+1], p[i+2], p[i+3] = 0xff, 0xff, 0xff, 0xff
+			continue
+		}
+		f.state = f.state*6364136223846793005 + 1442695040888963407
+		w := uint32(f.state >> 33)
+		p[i], p[i+1], p[i+2], p[i+3] = byte(w>>24), byte(w>>16), byte(w>>8), byte(w)
+	}
+	return len(p), nil
+}
+
 func main() {
 	g, _ := strconv.Atoi(os.Args[1])
 	iters, _ := strconv.Atoi(os.Args[2])
 	seed, _ := strconv.Atoi(os.Args[3])
+	if len(os.Args) > 4 && os.Args[4] == "forced" {
+		rand.Reader = &forcedReader{state: uint64(seed)*2654435761 + 1}
+	}
 
 	// ---- shared character recipes; expectations computed before any sharing, on private copies
 	recipes := []spg.CharRecipe{
